@@ -96,7 +96,7 @@ def run(chk):
         chk.count("sigma_is_1" if full["sigma"] == 1.0 else "sigma_lt_1")
     # hypothesis of the trajectory theorem: the initial row lies in [0,1] -- tied by replay: it is the seed's uniform draw
     init_bad = []
-    for c in confs:
+    for c in confs[:60]:
         full = dict(n=20, p=0.1, t=100, r=3.99, sigma=0.1, seed=42)
         full.update(c)
         if len(init_bad) < 3:
